@@ -4,6 +4,8 @@ import (
 	"fmt"
 	nurl "net/url"
 
+	"golang.org/x/net/html"
+
 	distiller "github.com/markusmobius/go-domdistiller"
 )
 
@@ -106,8 +108,14 @@ func runC02(ctx *Ctx) {
 }
 
 func runC03(ctx *Ctx) {
+	pc := newPipeCorr()
+	defer pc.run(ctx)
 	ctx.Rep.Rule = "pages with many simple paragraphs (text, br, b/i/em/strong/span/u/code/font/a incl. javascript: anchors) in body, list items, blockquotes and table cells, between other block kinds; distinct by structure; non-trivial = at least one simple paragraph kept and one dropped in the same page"
 	contentRun{id: "C03", n: [2]int{500, 20000}, url: pageURL,
+		corr: func(ctx *Ctx, x *distilled, replay interface{}) {
+			pc.add(ctx, x.D, x.Root, true, replay)
+			checkPlainAtoms(ctx, x, replay)
+		},
 		weights: []W{{"para", 40}, {"shortpara", 20}, {"heading", 4}, {"list", 10}, {"quote", 8}, {"datatable", 5}, {"layouttable", 5}, {"links", 6}, {"figure", 2}, {"img", 2}, {"divwrap", 8}, {"unlikely", 3}, {"form", 2}, {"hidden", 2}},
 		oracle: func(ctx *Ctx, x *distilled, replay interface{}) bool {
 			n, k, d := oracleC03(ctx.Rep, x, replay)
@@ -138,8 +146,11 @@ func hiddenCarriers(g *PageGen) []string {
 }
 
 func runC04(ctx *Ctx) {
+	pc := newPipeCorr()
+	defer pc.run(ctx)
 	ctx.Rep.Rule = "each hiding technique (script, style, head, comment, hidden attribute, display:none, visibility:hidden/collapse, aria-hidden, form controls, noscript, svg, object, unrecognised iframe) in each carrier (top level, paragraph, list item, data-table cell, figure, figcaption, blockquote, bare div) between long retained paragraphs; distinct by structure; non-trivial = the page contains hidden words and retains visible ones"
 	contentRun{id: "C04", n: [2]int{150, 6000}, url: pageURL,
+		corr:    func(ctx *Ctx, x *distilled, replay interface{}) { pc.add(ctx, x.D, x.Root, true, replay) },
 		weights: []W{{"para", 30}, {"hidden", 15}, {"script", 12}, {"form", 10}, {"list", 6}, {"datatable", 8}, {"figure", 8}, {"embed", 4}, {"quote", 4}, {"divwrap", 6}, {"links", 3}},
 		extra: func(ctx *Ctx, i int, r *Rng) []string {
 			g := newPageGen(r)
@@ -200,8 +211,11 @@ func runC06(ctx *Ctx) {
 }
 
 func runC07(ctx *Ctx) {
+	pc := newPipeCorr()
+	defer pc.run(ctx)
 	ctx.Rep.Rule = "pages with nested ul/ol/li/blockquote/pre to depth 5, partially retained lists, content only in inner lists, media and data tables inside lists and quotes; distinct by structure; non-trivial = a retained word with chain length >= 2 and a list with both kept and dropped items"
 	contentRun{id: "C07", n: [2]int{500, 20000}, url: pageURL,
+		corr:    func(ctx *Ctx, x *distilled, replay interface{}) { pc.add(ctx, x.D, x.Root, true, replay) },
 		weights: []W{{"para", 25}, {"shortpara", 8}, {"list", 25}, {"quote", 15}, {"pre", 6}, {"datatable", 6}, {"img", 4}, {"figure", 3}, {"links", 6}, {"divwrap", 6}, {"embed", 3}, {"heading", 3}},
 		oracle: func(ctx *Ctx, x *distilled, replay interface{}) bool {
 			deep, partial := oracleC07(ctx.Rep, x, replay)
@@ -226,4 +240,22 @@ func runC09(ctx *Ctx) {
 			}
 			return len(tokensOf(x.Res.Text)) > 0
 		}}.run(ctx)
+}
+
+// checkPlainAtoms: the premise `PlainAtoms` of the C03 theorem, on the real regexps: for every
+// attribute-free inline element of a simple paragraph none of the converter's tests fires.
+func checkPlainAtoms(ctx *Ctx, x *distilled, replay interface{}) {
+	var ps []*html.Node
+	findAll(x.D.Root, func(n *html.Node) bool { return n.Type == html.ElementNode && n.Data == "p" && isSimplePara(n) }, &ps)
+	for _, p := range ps {
+		var els []*html.Node
+		findAll(p, func(n *html.Node) bool { return n != p && n.Type == html.ElementNode }, &els)
+		for _, e := range els {
+			a := distiller.VerifElementAtoms(e)
+			ctx.Rep.hist("plain-atoms-checked")
+			if a.StyleDisplay != "" || a.VisHidden || a.Byline || a.Unlikely || !a.Visible {
+				ctx.Rep.mismatch("premise:PlainAtoms", replay, "all tests false on an attribute-free inline element", fmt.Sprintf("<%s>: %+v", e.Data, a))
+			}
+		}
+	}
 }
